@@ -293,6 +293,9 @@ class NotOperator():
     def evalExpression(self, env):
         return not self.op.evalExpression(env)
 
+    def evalExpressionToString(self, env):
+        raise ParseError("Bad syntax: boolean expression '{}' used as string operand".format(self))
+
 class BinaryBoolOperator():
     __slots__ = ('op', 'left', 'right')
 
@@ -312,6 +315,9 @@ class BinaryBoolOperator():
     def evalExpression(self, env):
         return OPS[self.op](self.left.evalExpression(env),
                             self.right.evalExpression(env))
+
+    def evalExpressionToString(self, env):
+        raise ParseError("Bad syntax: boolean expression '{}' used as string operand".format(self))
 
 class StringLiteral():
     __slots__ = ('literal', 'subst')
@@ -382,6 +388,9 @@ class BinaryStrOperator():
     def evalExpression(self, env):
         return OPS[self.op](self.left.evalExpressionToString(env),
                             self.right.evalExpressionToString(env))
+
+    def evalExpressionToString(self, env):
+        raise ParseError("Bad syntax: boolean expression '{}' used as string operand".format(self))
 
 class IfExpressionParser:
     __instance = None
